@@ -48,7 +48,7 @@ type faultCase struct {
 func baseline(sc *stmt) (*hx, *vrt.Outcome) {
 	var h *hx
 	ex := mkExec(sc, nil, &h)()
-	out := vrt.Run(execCfg, vrt.DefaultChooser{}, ex.Body)
+	out := vrt.Run(sc.cfg(), vrt.DefaultChooser{}, ex.Body)
 	return h, out
 }
 
@@ -92,6 +92,7 @@ type stmtReport struct {
 
 func main() {
 	explore.ServeWorker(factory)
+	servePool()
 	r := common.Start("C20", "model_checking")
 	r.Replayer("fault", func(raw json.RawMessage) (bool, string) {
 		var c faultCase
@@ -102,8 +103,7 @@ func main() {
 		if sc == nil || sc.Text != c.Stmt.Text {
 			sc = &c.Stmt // a statement that is no longer in the corpus replays from its recorded text
 		}
-		cfg := execCfg
-		cfg.Diag = true
+		cfg := sc.cfg()
 		var h *hx
 		out, vs, oc, bad := explore.Replay(cfg, mkExec(sc, c.Faults, &h), c.Choices)
 		if bad != "" {
@@ -196,7 +196,7 @@ func main() {
 	budget := time.Duration(r.Pick(70, 720)) * time.Second
 	start := time.Now()
 	deadline := start.Add(budget).UnixMilli()
-	totalExec, totalSteps, totalHB, judged, notReached := 0, int64(0), 0, 0, 0
+	totalExec, totalSteps, totalHB, judged, notReached, faultFree := 0, int64(0), 0, 0, 0, 0
 	outcomes := map[string]int{}
 	type phaseRep struct {
 		Phase      string `json:"phase"`
@@ -222,11 +222,11 @@ func main() {
 			}
 			for s := 0; s < n; s++ {
 				jobs = append(jobs, explore.Job{Scenario: nameOf(p.sc, p.faults), Opt: explore.Options{Mode: explore.Bounded, Bound: bound, OnlyLevel: onlyLevel,
-					Shard: s, Shards: n, DeadlineMs: deadline, Cfg: execCfg, Confirm: 2}})
+					Shard: s, Shards: n, DeadlineMs: deadline, Cfg: p.sc.cfg(), Confirm: 2}})
 				owner = append(owner, pi)
 			}
 		}
-		res, err := explore.RunJobs(jobs, 16)
+		res, err := runJobs(jobs, 16)
 		if err != nil {
 			common.Machinery("worker failed: %v", err)
 		}
@@ -255,10 +255,13 @@ func main() {
 			for oc, n := range m.Outcomes {
 				outcomes[oc] += n
 				sr.Outcomes[oc] += n
-				if strings.HasPrefix(oc, "fired=0/") {
+				switch {
+				case strings.HasPrefix(oc, "fired=0/0 "):
+					faultFree += n
+				case strings.HasPrefix(oc, "fired=0/"):
 					notReached += n
 					sr.NotReached += n
-				} else {
+				default:
 					judged += n
 				}
 			}
@@ -318,6 +321,7 @@ func main() {
 	r.Set("schedules", totalExec)
 	r.Set("evaluations", judged)
 	r.Set("executions_where_no_planned_fault_was_reached", notReached)
+	r.Set("fault_free_executions", faultFree)
 	r.Set("transitions", int(totalSteps))
 	r.Set("states", totalHB)
 	r.Set("traces_validated_against_impl", totalExec)
